@@ -24,7 +24,7 @@ ASSUMPTIONS = ["transform arguments are separated by single commas/spaces (parse
 CONFIGS = ['scipy']
 BUDGET = {'quick': 4000, 'thorough': 60000}
 REQUIRED = ['leaf:path', 'leaf:line', 'leaf:polyline', 'leaf:polygon', 'leaf:rect', 'leaf:rect_rounded', 'leaf:circle', 'leaf:ellipse',
-            'tf:matrix', 'tf:translate', 'tf:scale', 'tf:rotate', 'tf:rotate3', 'tf:skewX', 'tf:skewY', 'depth>=2', 'reader:Document',
+            'tf:matrix', 'tf:translate', 'tf:scale', 'tf:rotate', 'tf:rotate3', 'tf:skewX', 'tf:skewY', 'tf_args_in_exponent_notation', 'depth>=2', 'reader:Document',
             'reader:svg2paths', 'reader:SaxDocument', 'reader:paths_from_group', 'noncommuting_chain']
 CASE_TIMEOUT = 60
 
@@ -88,7 +88,7 @@ def leaf_s(draw, uid):
         node.update({'tag': 'rect', 'a': {'x': draw(num), 'y': draw(num), 'width': draw(pos), 'height': draw(pos)}})
     elif t == 'rect_rounded':
         w, h = draw(pos), draw(pos)
-        mode = draw(st.sampled_from(['both', 'rx', 'ry', 'both', 'too_big']))
+        mode = draw(st.sampled_from(['both', 'rx', 'ry', 'both', 'too_big', 'rx_too_big', 'ry_too_big']))
         fx, fy = draw(st.sampled_from([0.125, 0.25, 0.375])), draw(st.sampled_from([0.125, 0.25, 0.5]))
         a = {'x': draw(num), 'y': draw(num), 'width': w, 'height': h}
         if mode in ('both', 'rx'):
@@ -99,6 +99,10 @@ def leaf_s(draw, uid):
             a['rx'] = min(w, h) * fx
         if mode == 'ry':
             a['ry'] = min(w, h) * fy
+        if mode == 'rx_too_big':      # only rx given, larger than half the width (ry follows rx before clamping)
+            a['rx'] = w * draw(st.sampled_from([0.75, 1.0, 3.0]))
+        if mode == 'ry_too_big':
+            a['ry'] = h * draw(st.sampled_from([0.75, 1.0, 3.0]))
         if mode == 'too_big':
             a['rx'] = w * draw(st.sampled_from([0.75, 1.0, 2.0]))
             a['ry'] = h * fy
@@ -144,7 +148,7 @@ def tree_s(draw):
             else:
                 out.append(draw(leaf_s(counter[0])))
         return out
-    return {'tree': mk(0), 'sep': draw(st.integers(0, 2)), 'group_pick': draw(st.integers(0, 20))}
+    return {'tree': mk(0), 'sep': draw(st.integers(0, 5)), 'group_pick': draw(st.integers(0, 20))}
 
 
 def strategy(tier, config):
@@ -237,6 +241,8 @@ def check(case, ctx):
     import tempfile, os
     tree = case['tree']
     text = D.to_text(tree, case['sep'])
+    if case['sep'] >= 3 and 'e' in ''.join(D.tf_text(n.get('tf', []), case['sep']) for n in _all_nodes(tree)).replace('translate', '').replace('scale', '').replace('rotate', '').replace('skew', ''):
+        ctx.count('tf_args_in_exponent_notation')
     lv = D.leaves(tree)
     if not lv:
         ctx.discard('no leaves')
@@ -251,7 +257,7 @@ def check(case, ctx):
         info[node['id']] = (node, M, anc)
         label = 'rect_rounded' if (node['tag'] == 'rect' and ('rx' in node['a'] or 'ry' in node['a'])) else node['tag']
         ctx.count('leaf:' + label)
-        if node.get('rounded') == 'too_big':
+        if node.get('rounded') in ('too_big', 'rx_too_big', 'ry_too_big'):
             ctx.count('leaf:rect_rx_above_half_width')
         for t in flat:
             ctx.count('tf:' + ('rotate3' if t[0] == 'rotate' and len(t) == 4 else t[0]))
@@ -326,3 +332,12 @@ def check(case, ctx):
     for (node, chain, anc), p in zip(lv, flat):
         M = info[node['id']][1]
         compare_leaf(ctx, 'SaxDocument', node, M, p, True)
+
+
+def _all_nodes(nodes):
+    out = []
+    for n in nodes:
+        out.append(n)
+        if n['tag'] == 'g':
+            out.extend(_all_nodes(n['children']))
+    return out
